@@ -1,47 +1,71 @@
 (** C09 — faults arrive intact, are classified correctly and never leak internals.
     Property theorems only; each closed by a lemma of C09/Proofs.v.  The model (C09/Model.v) is
-    interpreted over tables regenerated from the Spyne sources on every run (Gen/FaultTables.v). *)
+    interpreted over tables regenerated from the Spyne sources on every run (Gen/FaultTables.v):
+    the class table of spyne/error.py, the fault_to_http_response_code chains, the fault string
+    function, the try/except skeleton of Application.process_request and the except clauses of
+    WsgiApplication.handle_rpc / the status rule of handle_error. *)
 From Coq Require Import ZArith List Bool String.
 From SpyneV Require Import Base.Prelude Gen.FaultTables C09.Model C09.Proofs.
 Open Scope Z_scope.
 
+(* ------------------------------------------------------------------ the funnel and the transport *)
+
 (** The response of the WSGI transport is a function of the output protocol and of the FIRST thing
-    user code raises (from a method_call listener, the method body, a method_return_object listener
-    or the lazily consumed generator the method returned): it is [handle_error] applied to the
-    raised Fault itself, or to the one constant fault for any non-Fault exception. *)
-Theorem C09_response_determined_by_first_raise : forall p u r,
-  first_raise u = Some r -> not_redirect r -> handle_rpc p u = handle_error p None (reported r).
+    user code raises (from a method_call listener, the method body, a method_return_object listener,
+    or the generator the method returned — before or after its first item): it is [handle_error]
+    applied to the raised Fault itself, or to the one constant fault for any non-Fault exception.
+    For every protocol, chunked or not, except the one streamed configuration (see
+    [C09_streamed_response]). *)
+Theorem C09_response_determined_by_first_raise : forall p ch u r,
+  first_raise u = Some r -> not_redirect r -> streamed p ch u = false ->
+  handle_rpc p ch u = handle_error p None (reported r).
 Proof. exact handle_rpc_first_raise. Qed.
 
 (** ... hence neither the return value, nor the site, nor anything else user code did matters:
     the method's return value is not sent. *)
-Theorem C09_no_return_on_fault : forall p u u' r,
-  first_raise u = Some r -> first_raise u' = Some r -> not_redirect r -> handle_rpc p u = handle_rpc p u'.
-Proof. intros. rewrite (handle_rpc_first_raise p u r), (handle_rpc_first_raise p u' r); auto. Qed.
+Theorem C09_no_return_on_fault : forall p ch u u' r,
+  first_raise u = Some r -> first_raise u' = Some r -> not_redirect r ->
+  streamed p ch u = false -> streamed p ch u' = false ->
+  handle_rpc p ch u = handle_rpc p ch u'.
+Proof. exact no_return_on_fault. Qed.
 
 (** Non-interference: ANY two non-Fault exceptions (whatever their type, text, traceback, site, and
     whatever the methods would have returned) produce the same response, it is status 500 with the
     serialisation of the constant fault Server / "Internal Error" (no detail), and it reads back as
     exactly that under every protocol. *)
-Theorem C09_no_leak : forall p u1 u2 e1 e2,
+Theorem C09_no_leak : forall p ch u1 u2 e1 e2,
   first_raise u1 = Some (RExn e1) -> first_raise u2 = Some (RExn e2) ->
-  handle_rpc p u1 = handle_rpc p u2 /\
-  exists w, handle_rpc p u1 = Ok (500, w) /\ enc_fault p internal_error = Ok w /\
+  streamed p ch u1 = false -> streamed p ch u2 = false ->
+  handle_rpc p ch u1 = handle_rpc p ch u2 /\
+  exists w, handle_rpc p ch u1 = Ok (500, w) /\ enc_fault p internal_error = Ok w /\
             dec_fault p w = Some {| o_code := t "Server"; o_string := t "Internal Error"; o_detail := None |}.
-Proof.
-  intros p u1 u2 e1 e2 H1 H2.
-  rewrite (handle_rpc_first_raise p u1 _ H1 I), (handle_rpc_first_raise p u2 _ H2 I).
-  split; [reflexivity |]. destruct p; eexists; repeat split.
-Qed.
+Proof. exact no_leak. Qed.
 
 (** A raised Fault is reported as itself: status from the documented table, body its own serialisation. *)
-Theorem C09_fault_reported : forall p u f st w,
-  first_raise u = Some (RFault f) -> isinstance f E_Redirect = false ->
-  handle_rpc p u = Ok (st, w) -> st = documented_status p f /\ enc_fault p f = Ok w.
-Proof.
-  intros p u f st w H Hr Hw. rewrite (handle_rpc_first_raise p u _ H Hr) in Hw.
-  apply handle_error_status. exact Hw.
-Qed.
+Theorem C09_fault_reported : forall p ch u f st w,
+  first_raise u = Some (RFault f) -> isinstance f E_Redirect = false -> streamed p ch u = false ->
+  handle_rpc p ch u = Ok (st, w) -> st = documented_status p f /\ enc_fault p f = Ok w.
+Proof. exact fault_reported. Qed.
+
+(** The streamed configuration (chunked transport, a protocol that hands the chunks of a generator
+    result through, the generator raising after its first item): status 200 and the first chunk of
+    the return value are on the wire before anything is found out; whatever was raised — Fault or
+    not — is not reported, and nothing of it is in the response either. *)
+Theorem C09_streamed_response : forall p u, streamed p true u = true ->
+  exists v r, u_body u = inr (RGen v (Some r)) /\ first_raise u = Some r /\
+              handle_rpc p true u = Ok (200, WPartial v).
+Proof. exact streamed_response. Qed.
+
+(** ... which refutes the unguarded statement (known finding); the same request is answered with the
+    fault when the application is served with chunked=False. *)
+Theorem C09_streaming_refuted : exists u f v,
+  first_raise u = Some (RFault f) /\ isinstance f E_Redirect = false /\
+  handle_rpc PHttpRpc true u = Ok (200, WPartial v) /\
+  handle_rpc PHttpRpc true u <> handle_error PHttpRpc None f /\
+  handle_rpc PHttpRpc false u = handle_error PHttpRpc None f.
+Proof. exact streaming_refuted. Qed.
+
+(* ------------------------------------------------------------------ classification *)
 
 (** The generated [fault_to_http_response_code] chain IS the documented table (413/404/405/401 for
     the dedicated classes and their subclasses, 400 iff the code is Client or starts with "Client.",
@@ -56,6 +80,8 @@ Theorem C09_builtin_classes_classified : forall c code s a d l,
   (client_code code = true -> 400 <= http_code PXml f < 500) /\
   (client_code code = false -> http_code PXml f = 500).
 Proof. exact builtin_classified. Qed.
+
+(* ------------------------------------------------------------------ intact on the wire *)
 
 (** Intact through JSON, YAML, MessagePack and msgpack-rpc documents: every code, message and nested
     detail, exactly. *)
@@ -75,55 +101,39 @@ Theorem C09_fault_intact_soap12 : forall f, xml_fault_ok f = true -> soap12_code
   exists w, enc_fault PSoap12 f = Ok w /\ dec_fault PSoap12 w = Some (expected_obs PSoap12 f).
 Proof. exact fault_intact_soap12. Qed.
 
-(** HttpRpc (text/plain): code and message intact when the code has no line feed ... *)
-Theorem C09_fault_intact_httprpc_partial : forall f, existsb (Z.eqb 10) (f_code f) = false ->
+(** HttpRpc (text/plain, "code LF LF message"): code and message intact exactly when the code cannot
+    be mistaken for the separator ... *)
+Theorem C09_fault_intact_httprpc_partial : forall f, has_blank (f_code f ++ [10]) = false ->
   exists w, enc_fault PHttpRpc f = Ok w /\
             dec_fault PHttpRpc w = Some {| o_code := f_code f; o_string := f_string f; o_detail := None |}.
-Proof. exact fault_intact_httprpc. Qed.
-
-Definition wit_fault (d : option (list (text * dval))) (s : text) : fault :=
-  {| f_root := E_Fault; f_code := t "Client.Foo"; f_string := s; f_actor := []; f_detail := d; f_lang := t "en" |}.
-Definition wit_body (f : fault) : ucode := {| u_call := None; u_body := inl (RFault f); u_ret := None |}.
+Proof. exact fault_intact_httprpc_exact. Qed.
 
 (** ... but the detail never leaves the server (known finding). *)
 Theorem C09_httprpc_detail_refuted : exists f w,
   enc_fault PHttpRpc f = Ok w /\ f_detail f <> None /\
   forall o, dec_fault PHttpRpc w = Some o -> o_detail o = None.
-Proof.
-  exists (wit_fault (Some [(t "a", DStr (t "x"))]) (t "m")). eexists. split; [reflexivity |].
-  split; [discriminate |]. intros o H. vm_compute in H. inversion H. reflexivity.
-Qed.
+Proof. exact httprpc_detail_refuted. Qed.
 
 (** A fault XML cannot carry produces no response at all under the XML protocols (known finding). *)
 Theorem C09_xml_unrepresentable_refuted : exists f,
-  xml_fault_ok f = false /\ forall p, is_xml_prot p = true -> handle_rpc p (wit_body f) = Crash ValueError.
-Proof.
-  exists (wit_fault None [110; 0]). split; [reflexivity |]. intros p Hp. destruct p; try discriminate; reflexivity.
-Qed.
+  xml_fault_ok f = false /\
+  forall p ch, is_xml_prot p = true -> handle_rpc p ch (wit_body f) = Crash ValueError.
+Proof. exact xml_unrepresentable_refuted. Qed.
 
-(** A generator that raises before its first item escapes the WSGI callable (known finding). *)
-Theorem C09_generator_first_item_refuted : exists f, forall p,
-  handle_rpc p {| u_call := None; u_body := inr (RGen0 (RFault f)); u_ret := None |} = Crash OtherExn.
-Proof. exists (wit_fault None (t "m")). intros p. reflexivity. Qed.
+(* ------------------------------------------------------------------ Spyne's own client (loopback) *)
 
-(** Spyne's own client (loopback): SOAP 1.1 keeps everything (the code keeps its QName prefix) ... *)
+(** SOAP 1.1 keeps everything (the code keeps its QName prefix) ... *)
 Theorem C09_loopback_soap11 : forall f, xml_fault_ok f = true -> f_string f <> [] ->
   exists w, enc_fault PSoap11 f = Ok w /\
             client_in_error PSoap11 w =
             Some {| o_code := pre11 ++ colon :: f_code f; o_string := f_string f;
                     o_detail := xnorm_detail (f_detail f) |}.
-Proof.
-  intros f H Hs. destruct (loopback_soap11 f H) as [w [E C]]. exists w. split; [exact E |].
-  rewrite C. unfold client_obs11, ctor_string. destruct (f_string f); [congruence | reflexivity].
-Qed.
+Proof. exact loopback_soap11_nonempty. Qed.
 
 (** ... msgpack-rpc (repaired reader) keeps everything exactly ... *)
 Theorem C09_loopback_msgpackrpc : forall f, f_string f <> [] ->
   exists w, enc_fault PMsgpackRpc f = Ok w /\ client_in_error PMsgpackRpc w = Some (expected_obs PMsgpackRpc f).
-Proof.
-  intros f Hs. destruct (loopback_msgpackrpc f) as [w [E C]]. exists w. split; [exact E |].
-  rewrite C. unfold expected_obs, ctor_string. cbn [is_xml_prot]. destruct (f_string f); [congruence | reflexivity].
-Qed.
+Proof. exact loopback_msgpackrpc_nonempty. Qed.
 
 (** ... SOAP 1.2 (repaired reader) keeps code (first segment as the env-prefixed Sender/Receiver) and
     detail, and the message when it has no leading/trailing white space ... *)
@@ -133,47 +143,119 @@ Theorem C09_loopback_soap12_partial : forall f,
   exists w, enc_fault PSoap12 f = Ok w /\
             client_in_error PSoap12 w =
             Some {| o_code := client_code12 f; o_string := f_string f; o_detail := xnorm_detail (f_detail f) |}.
-Proof.
-  intros f H Hc Hst Hs. destruct (loopback_soap12 f H Hc) as [w [E C]]. exists w. split; [exact E |].
-  rewrite C. unfold client_obs12, ctor_string. rewrite Hst. destruct (f_string f); [congruence | reflexivity].
-Qed.
+Proof. exact loopback_soap12_unpadded. Qed.
 
-(** ... and strips it otherwise (known finding). *)
+(** ... and strips it otherwise (known finding): what arrives is exactly [strip] of the message. *)
+Theorem C09_loopback_soap12_stripped : forall f,
+  xml_fault_ok f = true -> soap12_code_ok (f_code f) = true -> strip (f_string f) <> [] ->
+  exists w o, enc_fault PSoap12 f = Ok w /\ client_in_error PSoap12 w = Some o /\
+              o_string o = strip (f_string f).
+Proof. exact loopback_soap12_stripped. Qed.
+
 Theorem C09_loopback_soap12_strip_refuted : exists f w o,
   enc_fault PSoap12 f = Ok w /\ client_in_error PSoap12 w = Some o /\ o_string o <> f_string f.
-Proof.
-  exists (wit_fault None [32; 120; 32]). eexists. eexists. split; [reflexivity |].
-  split; [vm_compute; reflexivity |]. vm_compute. discriminate.
-Qed.
+Proof. exact loopback_soap12_strip_refuted. Qed.
 
-(** Non-vacuity: the hypotheses are met by concrete non-trivial instances, through every site. *)
+(* ------------------------------------------------------------------ non-vacuity *)
+(** The hypotheses are met by concrete non-trivial instances, through every site. *)
 Definition ex_fault : fault :=
   {| f_root := E_RespawnError; f_code := t "Client.ResourceNotFound.a.b"; f_string := [104; 233; 19990; 128512];
      f_actor := []; f_detail := Some [(t "a", DStr (t "x")); (t "b", DDict [(t "c", DNone); (t "d", DDict [])])];
      f_lang := t "en" |}.
+Definition ex_secret : pyexn := {| px_type := t "ValueError"; px_text := t "secret" |}.
 Definition ex_lazy : ucode :=
   {| u_call := None; u_body := inr (RGen (t "first") (Some (RFault ex_fault))); u_ret := None |}.
+Definition ex_first : ucode :=
+  {| u_call := None; u_body := inr (RGen0 (RFault ex_fault)); u_ret := None |}.
+Definition ex_listener : ucode :=
+  {| u_call := Some (RFault ex_fault); u_body := inr (RPlain (t "never computed")); u_ret := None |}.
 Definition ex_after : ucode :=
-  {| u_call := None; u_body := inr (RPlain (t "the return value"));
-     u_ret := Some (RExn {| px_type := t "ValueError"; px_text := t "secret" |}) |}.
+  {| u_call := None; u_body := inr (RPlain (t "the return value")); u_ret := Some (RExn ex_secret) |}.
+Definition ex_lazy_exn : ucode :=
+  {| u_call := None; u_body := inr (RGen (t "first") (Some (RExn {| px_type := t "KeyError"; px_text := t "other" |})));
+     u_ret := None |}.
 
-Example C09_ex_fault : first_raise ex_lazy = Some (RFault ex_fault) /\ isinstance ex_fault E_Redirect = false
-  /\ xml_fault_ok ex_fault = true /\ soap12_code_ok (f_code ex_fault) = true
-  /\ strip (f_string ex_fault) = f_string ex_fault
-  /\ map (fun p => match handle_rpc p ex_lazy with Ok (st, _) => st | _ => 0 end) all_prots
-     = [500; 500; 404; 404; 404; 404; 404; 404]
-  /\ (match handle_rpc PSoap12 ex_lazy with Ok (_, w) => dec_fault PSoap12 w | _ => None end)
-     = Some (expected_obs PSoap12 ex_fault)
-  /\ length funnel_handlers = 3%nat /\ length http_isinstance_chain = 4%nat.
+(** the guard [streamed = false] leaves 15 of the 16 (protocol, chunked) configurations for a late
+    generator failure, and all 16 for every other site *)
+Example C09_ex_response_determined_by_first_raise :
+  first_raise ex_lazy = Some (RFault ex_fault) /\ not_redirect (RFault ex_fault) /\
+  map (fun p => (streamed p true ex_lazy, streamed p false ex_lazy)) all_prots
+  = [(false, false); (false, false); (false, false); (false, false); (false, false); (false, false);
+     (false, false); (true, false)] /\
+  first_raise ex_first = Some (RFault ex_fault) /\
+  forallb (fun p => negb (streamed p true ex_first)) all_prots = true /\
+  map (fun p => match handle_rpc p true ex_first with Ok (st, _) => st | _ => 0 end) all_prots
+  = [500; 500; 404; 404; 404; 404; 404; 404].
 Proof. vm_compute. repeat split. Qed.
 
-Example C09_ex_exn : exists e, first_raise ex_after = Some (RExn e) /\ px_text e = t "secret"
-  /\ handle_rpc PJson ex_after = Ok (500, WDoc (JDict [(t "faultcode", JStr (t "Server"));
-                                                      (t "faultstring", JStr (t "Internal Error"))])).
-Proof. eexists. vm_compute. repeat split. Qed.
+Example C09_ex_no_return_on_fault :
+  first_raise ex_lazy = first_raise ex_listener /\ first_raise ex_listener = first_raise ex_first /\
+  ex_lazy <> ex_listener /\ streamed PJson true ex_lazy = false /\ streamed PJson true ex_listener = false /\
+  handle_rpc PJson true ex_lazy = handle_rpc PJson true ex_listener.
+Proof. vm_compute. repeat split. discriminate. Qed.
 
-Example C09_ex_builtin : ecls_code E_MissingFieldError = Some (t "Client.InvalidInput")
-  /\ http_code PJson (Build_fault E_MissingFieldError (t "Client.InvalidInput") (t "m") [] None (t "en")) = 400
-  /\ http_code PJson (Build_fault E_Fault (t "Clientele") (t "m") [] None (t "en")) = 500
-  /\ is_dict_prot PYaml = true /\ is_xml11_prot PXml = true.
+Example C09_ex_no_leak :
+  first_raise ex_after = Some (RExn ex_secret) /\ px_text ex_secret = t "secret" /\
+  (exists e, first_raise ex_lazy_exn = Some (RExn e) /\ e <> ex_secret) /\
+  streamed PJson true ex_after = false /\ streamed PJson true ex_lazy_exn = false /\
+  handle_rpc PJson true ex_after = Ok (500, WDoc (JDict [(t "faultcode", JStr (t "Server"));
+                                                         (t "faultstring", JStr (t "Internal Error"))])).
+Proof. vm_compute. repeat split. eexists. split; [reflexivity | discriminate]. Qed.
+
+Example C09_ex_fault_reported :
+  first_raise ex_lazy = Some (RFault ex_fault) /\ isinstance ex_fault E_Redirect = false /\
+  map (fun p => match handle_rpc p false ex_lazy with Ok (st, _) => st | _ => 0 end) all_prots
+  = [500; 500; 404; 404; 404; 404; 404; 404] /\
+  (match handle_rpc PSoap12 true ex_lazy with Ok (_, w) => dec_fault PSoap12 w | _ => None end)
+  = Some (expected_obs PSoap12 ex_fault).
 Proof. vm_compute. repeat split. Qed.
+
+Example C09_ex_streamed_response :
+  streamed PHttpRpc true ex_lazy = true /\ handle_rpc PHttpRpc true ex_lazy = Ok (200, WPartial (t "first")) /\
+  streamed PHttpRpc true ex_lazy_exn = true.
+Proof. vm_compute. repeat split. Qed.
+
+Example C09_ex_status_table :
+  length http_isinstance_chain = 4%nat /\ length funnel_handlers = 3%nat /\
+  length wsgi_serialise_handlers = 2%nat /\ length wsgi_first_item_handlers = 2%nat /\
+  http_code PJson (Build_fault E_Fault (t "Client") (t "m") [] None (t "en")) = 400 /\
+  http_code PJson (Build_fault E_Fault (t "Clientele") (t "m") [] None (t "en")) = 500 /\
+  http_code PJson (Build_fault E_RequestTooLongError (t "Server") (t "m") [] None (t "en")) = 413 /\
+  http_code PSoap11 (Build_fault E_RequestTooLongError (t "Client") (t "m") [] None (t "en")) = 500.
+Proof. vm_compute. repeat split. Qed.
+
+Example C09_ex_builtin_classes_classified :
+  ecls_code E_MissingFieldError = Some (t "Client.InvalidInput") /\ E_MissingFieldError <> E_Redirect /\
+  client_code (t "Client.InvalidInput") = true /\
+  http_code PXml (Build_fault E_MissingFieldError (t "Client.InvalidInput") (t "m") [] None (t "en")) = 400 /\
+  ecls_code E_InternalError = Some (t "Server") /\ client_code (t "Server") = false.
+Proof. vm_compute. repeat split. discriminate. Qed.
+
+Example C09_ex_fault_intact_dict :
+  forallb is_dict_prot [PJson; PYaml; PMsgpack; PMsgpackRpc] = true /\
+  (match enc_fault PJson ex_fault with Ok w => dec_fault PJson w | _ => None end) = Some (expected_obs PJson ex_fault) /\
+  o_detail (expected_obs PJson ex_fault) = f_detail ex_fault.
+Proof. vm_compute. repeat split. Qed.
+
+Example C09_ex_fault_intact_xml11 :
+  is_xml11_prot PXml = true /\ is_xml11_prot PSoap11 = true /\ xml_fault_ok ex_fault = true /\
+  o_detail (expected_obs PXml ex_fault)
+  = Some [(t "a", DStr (t "x")); (t "b", DDict [(t "c", DStr []); (t "d", DStr [])])].
+Proof. vm_compute. repeat split. Qed.
+
+Example C09_ex_fault_intact_soap12 :
+  xml_fault_ok ex_fault = true /\ soap12_code_ok (f_code ex_fault) = true /\
+  split_dot (f_code ex_fault) = (t "Client", [t "ResourceNotFound"; t "a"; t "b"]).
+Proof. vm_compute. repeat split. Qed.
+
+Example C09_ex_fault_intact_httprpc_partial :
+  has_blank (f_code ex_fault ++ [10]) = false /\ has_blank (t "a" ++ [10; 98] ++ [10]) = false /\
+  has_blank ([97; 10] ++ [10]) = true.
+Proof. vm_compute. repeat split. Qed.
+
+Example C09_ex_loopback :
+  xml_fault_ok ex_fault = true /\ f_string ex_fault <> [] /\ soap12_code_ok (f_code ex_fault) = true /\
+  strip (f_string ex_fault) = f_string ex_fault /\
+  client_code12 ex_fault = t "soap12env:Sender.ResourceNotFound.a.b" /\
+  strip [32; 120; 32] = [120] /\ strip [32; 120; 32] <> [].
+Proof. vm_compute. repeat split; discriminate. Qed.
